@@ -392,12 +392,18 @@ func (b *Bucket) MoveBucket(key []byte, dstBucket *Bucket) (err error) {
 	}
 
 	// remove the sub-bucket from the source bucket
+	child := b.buckets[string(newKey)]
 	delete(b.buckets, string(newKey))
 	c.node().del(newKey)
 
 	// add te sub-bucket to the destination bucket
 	newValue := cloneBytes(v)
 	curDst.node().put(newKey, newKey, newValue, 0, common.BucketLeafFlag)
+	if child != nil {
+		// The sub-bucket was opened in this transaction and may carry
+		// uncommitted changes; keep it cached so that it is spilled on commit.
+		dstBucket.buckets[string(newKey)] = child
+	}
 
 	return nil
 }
